@@ -4,14 +4,15 @@ import tempfile
 
 from .. import impl
 from ..common import exc_name
-from ..faults import Injector
+from ..faults import Injector, PlanInjector
 from ..runner import Outcome
 from .c07 import JsonCodec
 
-LEVEL = "fault_enumeration"
+LEVEL = "proof"
 ASSUMPTIONS = ["a failed close() still releases the descriptor (Linux semantics); a failed remove leaves the file in place and a later close() may retry",
                "os.close really closes and os.remove really removes (observed through fstat / the directory, not proved)",
-               "prompt finalisation of an abandoned generator relies on CPython reference counting (observed)"]
+               "prompt finalisation of an abandoned generator relies on CPython reference counting (observed)",
+               "fault-plan cases on a sorting MafWriter build its MafSorter with a small max_objects_in_ram (maflib.writer.MafSorter is wrapped), so that spills happen during write()"]
 
 
 def scenario(n, cap, always_spill, abandon, fail_at, tmp, reiterate=False):
@@ -173,6 +174,328 @@ def eval_writer_fault(n, k, call, tmp):
     return obs, failures
 
 
+# ---- fault plans beyond "one transient OSError, the caller gives up": carrying on after a reported failure, faults that
+# ---- last, several faults in one call, EOFError on reads, spill files cut short on disk.  The effect model
+# ---- (`sorter.faults`) takes one transient OSError and a caller that gives up: these cases run on the implementation only.
+PENDING_DEFECTS = ()      # case families skipped because the unchanged library violates the property there (none)
+
+KINDS = ("mkstemp", "gzip.open(w)", "gzip.open(r)", "write", "read", "handle.close(w)", "handle.close(r)", "os.close", "os.remove")
+
+
+def _cut(path, cut):
+    """Cut a spill file short: int > 0 = bytes kept, int < 0 = bytes dropped, float = fraction kept; at least one byte is
+    kept and at least one dropped (an empty file is an empty run, not a failed read)."""
+    import os
+    size = os.path.getsize(path)
+    if size < 2:
+        return None
+    keep = int(size * cut) if isinstance(cut, float) else (cut if cut > 0 else size + cut)
+    keep = max(1, min(size - 1, keep))
+    os.truncate(path, keep)
+    return [size, keep]
+
+
+def _flip(path, at):
+    """Damage a spill file: invert the byte at fraction `at` of its length."""
+    import os
+    size = os.path.getsize(path)
+    if size < 1:
+        return None
+    k = min(size - 1, int(size * at))
+    with open(path, "r+b") as h:
+        h.seek(k)
+        b = h.read(1)
+        h.seek(k)
+        h.write(bytes([b[0] ^ 0xFF]))
+    return [size, "byte %d inverted" % k]
+
+
+def _truncate(inj, tr):
+    import os
+    live = [p for p in inj.paths if os.path.exists(p)]
+    if not live:
+        return None
+    path = live[tr["file"] % len(live)]
+    return _flip(path, tr["flip"]) if "flip" in tr else _cut(path, tr["cut"])
+
+
+def _close_protocol(close, inj, obs, attempts):
+    """close() as the caller must; when it reports a failure the caller closes again.  Faults that last 'until the first
+    close() has returned or raised' heal after the first attempt.  obs["judge_leaks"]: the last attempt met no fault."""
+    for attempt in range(attempts):
+        before = len(inj.fired_all)
+        try:
+            close()
+            obs["closes"].append(None)
+        except Exception as e:  # noqa
+            obs["closes"].append(exc_name(e))
+            obs["raised"].append(("close#%d" % attempt, exc_name(e)))
+        inj.event("close")
+        obs["judge_leaks"] = len(inj.fired_all) == before
+        if obs["closes"][-1] is None:
+            break
+
+
+def plan_scenario(sc, tmp):
+    """A bare Sorter under a fault plan.  sc: n, capacity, always_spill, iters (per iteration: None = to the end, j = abandoned
+    after j items), carry_on (the caller catches what add / iteration report and carries on: keeps adding, iterates once
+    more), plan (faults.PlanInjector rules), truncate ({"file", "cut"}: a spill file is cut short between add and iteration;
+    {"file", "flip"}: one of its bytes is inverted)."""
+    from maflib.sorter import Sorter
+    inj = PlanInjector(sc.get("plan") or [])
+    inj.install()
+    obs = {"raised": [], "added": [], "iterations": [], "closes": [], "truncated": None, "judge_leaks": False}
+    carry = bool(sc.get("carry_on"))
+    n = sc["n"]
+    try:
+        s = Sorter(sc["capacity"], JsonCodec(), lambda x: x[0], tmp_dir=tmp, always_spill=sc["always_spill"])
+        gave_up = False
+        for k in range(n):
+            item = (n - k, "v%d" % k)
+            try:
+                if k % 2:
+                    s.add(item)
+                else:
+                    s += item
+                obs["added"].append(n - k)
+            except Exception as e:  # noqa
+                obs["raised"].append(("add#%d" % k, exc_name(e)))
+                if not carry:
+                    gave_up = True
+                    break
+        if not gave_up and sc.get("truncate"):
+            obs["truncated"] = _truncate(inj, sc["truncate"])
+        for i, j in enumerate([] if gave_up else sc.get("iters", [None])):
+            ok = False
+            for attempt in range(2 if carry else 1):
+                outp = []
+                it = iter(s)
+                try:
+                    for x in it:
+                        outp.append(x[0])
+                        if j is not None and len(outp) >= j:
+                            break
+                    ok = True
+                except Exception as e:  # noqa
+                    obs["raised"].append(("iterate#%d.%d" % (i, attempt), exc_name(e)))
+                del it
+                obs["iterations"].append({"limit": j, "keys": outp, "returned": ok})
+                if ok:
+                    break
+            if not ok and not carry:
+                break
+        _close_protocol(s.close, inj, obs, 4)
+        obs["calls"] = list(inj.calls)
+        obs["fired"] = [list(x) for x in inj.fired_all]
+        obs["leaked_files"] = len(inj.leaked_files())
+        obs["leaked_fds"] = len(inj.leaked_fds())
+        obs["open_handles"] = inj.open_handles()
+    finally:
+        inj.uninstall()
+        inj.cleanup()
+    return obs
+
+
+def plan_writer_scenario(sc, tmp):
+    """A sorting MafWriter (assume_sorted=False, Coordinate) under a fault plan.  sc as for plan_scenario; `capacity` is the
+    max_objects_in_ram the writer's MafSorter is built with (None: the library's default, 10000).  A caller that does not
+    carry on stops writing at the first reported failure and closes once; one that does keeps writing and closes again."""
+    import maflib.writer as W
+    from maflib.header import MafHeader
+    from maflib.writer import MafWriter
+    from maflib.validation import ValidationStringency as VS
+    from .. import sortcases as SC
+    inj = PlanInjector(sc.get("plan") or [])
+    old_tmp = tempfile.tempdir
+    tempfile.tempdir = tmp
+    real_sorter = W.MafSorter
+    cap = sc.get("capacity")
+    if cap is not None:
+        def small_sorter(*a, **kw):
+            kw["max_objects_in_ram"] = cap
+            return real_sorter(*a, **kw)
+        W.MafSorter = small_sorter
+    inj.install()
+    obs = {"raised": [], "added": [], "closes": [], "truncated": None, "judge_leaks": False, "lines": None}
+    carry = bool(sc.get("carry_on"))
+    n = sc["n"]
+    try:
+        buf = impl.RecordingHandle()
+        h = MafHeader.from_lines(["#version gdc-1.0.0", "#annotation.spec lab", "#sort.order Coordinate"], validation_stringency=VS.Silent)
+        w = MafWriter.from_fd(buf, h, validation_stringency=VS.Silent, assume_sorted=False)
+        for k in range(n):
+            pos = 100 + n - k
+            rec = SC.untyped_record("T", "N", "chr1", str(pos), str(pos))
+            try:
+                if k % 2:
+                    w.write(rec)
+                else:
+                    w += rec
+                obs["added"].append(pos)
+            except Exception as e:  # noqa
+                obs["raised"].append(("write#%d" % k, exc_name(e)))
+                if not carry:
+                    break
+        if sc.get("truncate"):
+            obs["truncated"] = _truncate(inj, sc["truncate"])
+        _close_protocol(w.close, inj, obs, 2 if carry else 1)
+        obs["closed_normally"] = obs["closes"][-1] is None
+        body = [l for l in buf.text().split("\n") if l and not l.startswith("#")][1:]
+        obs["lines"] = [int(l.split("\t")[2]) for l in body if len(l.split("\t")) > 2 and l.split("\t")[2].isdigit()]
+        obs["calls"] = list(inj.calls)
+        obs["fired"] = [list(x) for x in inj.fired_all]
+        obs["leaked_files"] = len(inj.leaked_files())
+        obs["leaked_fds"] = len(inj.leaked_fds())
+        obs["open_handles"] = inj.open_handles()
+        if w._sorter is not None:
+            try:
+                w._sorter.close()
+            except Exception:  # noqa
+                pass
+    finally:
+        inj.uninstall()
+        inj.cleanup()
+        W.MafSorter = real_sorter
+        tempfile.tempdir = old_tmp
+    return obs
+
+
+def _io_error(name, sc):
+    return name.startswith("OSError") or any((name, r.get("exc")) in (("EOFError", "EOFError"), ("error", "zlib.error")) for r in sc.get("plan") or [])
+
+
+def eval_plan(sc, tmp):
+    """One fault-plan case (shared by run and replay_case): the property's clauses on what the implementation did.
+       reported   some call failed (injected, or a read of a file cut short) => something was raised to the caller
+       other      a caller that gives up at the first failure only ever sees the I/O errors (not judged for one that
+                  carries on: the statement leaves open what add/iterate do after a reported failure, as long as they raise)
+       complete   an iteration run to the end that returned normally / a writer whose close() returned normally holds every
+                  record whose add()/write() returned normally
+       leaks      after the last close() (one that met no fault): no spill file, descriptor or gzip handle"""
+    writer = sc.get("target") == "writer"
+    obs = (plan_writer_scenario if writer else plan_scenario)(sc, tmp)
+    failures = []
+    base = {"scenario": "plan", "case": sc}
+    added = set(obs["added"])
+    if obs["fired"] and not obs["raised"]:
+        failures.append(dict(base, kind="plan-swallowed", what="%d injected I/O failure(s) (first: %s at call %d), nothing reached the caller" % (
+            len(obs["fired"]), obs["fired"][0][1], obs["fired"][0][0])))
+    # (a writer's close() after a reported write failure is already "carrying on": only the first report is judged there)
+    if not sc.get("carry_on") and not sc.get("truncate") and any(not _io_error(r[1], sc) for r in (obs["raised"][:1] if writer else obs["raised"])):
+        failures.append(dict(base, kind="plan-other-exception", what="a failure other than the I/O error escaped", got=[list(r) for r in obs["raised"]]))
+    if writer:
+        if obs["closed_normally"]:
+            missing = sorted(added - set(obs["lines"]))
+            if missing:
+                failures.append(dict(base, kind="plan-incomplete", what="writer.close() returned normally but %d of the %d records whose write() returned normally are missing from the output" % (
+                    len(missing), len(added)), missing=missing[:10], raised=[list(r) for r in obs["raised"]]))
+            if obs["leaked_files"] or obs["leaked_fds"] or obs["open_handles"]:
+                failures.append(dict(base, kind="plan-leak", what="writer.close() returned normally: %d spill file(s), %d descriptor(s), %d open gzip handle(s) left behind" % (
+                    obs["leaked_files"], obs["leaked_fds"], len(obs["open_handles"])), raised=[list(r) for r in obs["raised"]]))
+    else:
+        for i, itn in enumerate(obs["iterations"]):
+            if itn["returned"] and itn["limit"] is None:
+                missing = sorted(added - set(itn["keys"]))
+                if missing:
+                    failures.append(dict(base, kind="plan-incomplete", what="iteration %d returned normally without %d of the %d records whose add() returned normally" % (
+                        i, len(missing), len(added)), missing=missing[:10], raised=[list(r) for r in obs["raised"]]))
+                    break
+        if obs["judge_leaks"] and (obs["leaked_files"] or obs["leaked_fds"] or obs["open_handles"]):
+            failures.append(dict(base, kind="plan-leak", what="after the last close() (%s): %d spill file(s), %d descriptor(s), %d open gzip handle(s) left behind" % (
+                "returned normally" if obs["closes"][-1] is None else "raised " + obs["closes"][-1],
+                obs["leaked_files"], obs["leaked_fds"], len(obs["open_handles"])), raised=[list(r) for r in obs["raised"]], closes=obs["closes"]))
+    return obs, failures
+
+
+def _one(k, exc=None):
+    r = {"kind": "*", "by": "pos", "from": k, "count": 1}
+    if exc:
+        r["exc"] = exc
+    return r
+
+
+def plan_cases(ctx, rng, tmp):
+    """The fault-plan case families: yields (family, case).  Positions come from the fault-free run of the same case."""
+    thorough = ctx.tier == "thorough"
+
+    def calls_of(sc):
+        return (plan_writer_scenario if sc.get("target") == "writer" else plan_scenario)(dict(sc, plan=[], truncate=None), tmp)["calls"]
+
+    def some(xs, q):
+        xs = list(xs)
+        m = ctx.scale(q, len(xs))
+        return xs if len(xs) <= m else sorted(rng.sample(xs, m))
+
+    shapes = [(4, 2, True), (5, 2, True), (6, 3, True), (5, 2, False), (7, 3, False), (2, 1, True)]
+    if thorough:
+        shapes += [(n, c, sp) for n in range(1, 9) for c in (1, 2, 3, 4) for sp in (True, False) if (n, c, sp) not in shapes]
+    wshapes = [(5, 2), (6, 3), (3, None)] + ([(4, 1), (7, 2), (9, 4)] if thorough else [])
+    # 1. the caller carries on after a reported failure (every single position)
+    for (n, cap, sp) in shapes:
+        sc = {"target": "sorter", "n": n, "capacity": cap, "always_spill": sp, "iters": [None], "carry_on": True}
+        yield "clean", dict(sc, plan=[])
+        for k in some(range(len(calls_of(sc))), 60):
+            yield "carry-on", dict(sc, plan=[_one(k)])
+    for (n, cap) in wshapes:
+        sc = {"target": "writer", "n": n, "capacity": cap}
+        yield "clean", dict(sc, plan=[], carry_on=False)
+        for k in some(range(len(calls_of(sc))), 60):
+            yield "writer-carry-on", dict(sc, plan=[_one(k)], carry_on=True)
+            yield "writer-gives-up", dict(sc, plan=[_one(k)], carry_on=False)
+    # 2. more than one iteration (to the end twice; abandoned, then to the end): one transient fault, the caller gives up
+    for (n, cap, sp, iters) in [(5, 2, True, [None, None]), (6, 2, True, [2, None]), (6, 3, False, [1, 1, None])] + (
+            [(n, c, sp, its) for n in (3, 6) for c in (1, 2) for sp in (True, False) for its in ([None, None], [1, None], [1, 2])] if thorough else []):
+        sc = {"target": "sorter", "n": n, "capacity": cap, "always_spill": sp, "iters": iters, "carry_on": False}
+        yield "clean", dict(sc, plan=[])
+        for k in some(range(len(calls_of(sc))), 30):
+            yield "re-iterate", dict(sc, plan=[_one(k)])
+    # 3. a read fails with EOFError (what gzip raises when a spill file ends early); a spill file really cut short
+    for (n, cap, sp) in shapes[:4] + shapes[6:]:
+        for carry in (False, True):
+            sc = {"target": "sorter", "n": n, "capacity": cap, "always_spill": sp, "iters": [None], "carry_on": carry}
+            reads = calls_of(sc).count("read")
+            for i in some(range(reads), 12):
+                yield "eof-read", dict(sc, plan=[{"kind": "read", "by": "kind", "from": i, "count": 1, "exc": "EOFError"}])
+                yield "zlib-read", dict(sc, plan=[{"kind": "read", "by": "kind", "from": i, "count": 1, "exc": "zlib.error"}])
+    # (runs long enough for a cut to leave some, but not all, of their records readable)
+    for (n, cap, sp) in [(4, 2, True), (40, 20, True), (36, 12, False)] + ([(n, c, sp) for n in (7, 60) for c in (3, 25) for sp in (True, False)] if thorough else []):
+        sc = {"target": "sorter", "n": n, "capacity": cap, "always_spill": sp, "iters": [None], "carry_on": False, "plan": []}
+        for f in range(n // cap):
+            for cut in (1, 0.4, 0.6, 0.8, -24, -14, -9, -1):
+                yield "truncate", dict(sc, truncate={"file": f, "cut": cut})
+            for at in (0.0, 0.5, 0.7, 0.9, 0.99):
+                yield "damage", dict(sc, truncate={"file": f, "flip": at})
+    for (n, cap) in wshapes[:2] + wshapes[3:]:
+        sc = {"target": "writer", "n": n, "capacity": cap, "carry_on": False}
+        for i in some(range(calls_of(sc).count("read")), 8):
+            yield "writer-eof-read", dict(sc, plan=[{"kind": "read", "by": "kind", "from": i, "count": 1, "exc": rng.choice(["EOFError", "EOFError", "zlib.error"])}])
+    for (n, cap) in [(5, 2), (30, 10)] + ([(45, 20)] if thorough else []):
+        sc = {"target": "writer", "n": n, "capacity": cap, "carry_on": False}
+        for f in range(n // cap):
+            for cut in (1, 0.5, 0.8, -20, -9, -1):
+                yield "writer-truncate", dict(sc, plan=[], truncate={"file": f, "cut": cut})
+    # 4. faults that last until the first close() has returned or raised, then a retried close(); several faults in one run
+    for (n, cap, sp, iters) in [(6, 2, True, [None]), (9, 3, True, [None]), (5, 2, False, [None]), (6, 2, True, [2])] + (
+            [(n, c, sp, its) for n in (4, 8) for c in (1, 3) for sp in (True, False) for its in ([None], [1])] if thorough else []):
+        sc = {"target": "sorter", "n": n, "capacity": cap, "always_spill": sp, "iters": iters, "carry_on": False}
+        calls = calls_of(sc)
+        for kind in KINDS:
+            occ = calls.count(kind)
+            for i in sorted({0, 1, occ - 1} & set(range(occ))):
+                yield "lasting", dict(sc, plan=[{"kind": kind, "by": "kind", "from": i, "count": None, "heal": "close"}])
+        for k in some(range(len(calls)), 16):
+            yield "blackout", dict(sc, plan=[{"kind": "*", "by": "pos", "from": k, "count": None, "heal": "close"}])
+        for _ in range(ctx.scale(12, 60)):
+            plan = []
+            for _r in range(rng.choice([2, 2, 3])):
+                kind = rng.choice([c for c in KINDS if c in calls])
+                plan.append({"kind": kind, "by": "kind", "from": rng.randrange(calls.count(kind)), "count": rng.choice([1, 1, 2])})
+            yield "multi", dict(sc, plan=plan)
+    sc = {"target": "writer", "n": 6, "capacity": 2, "carry_on": True}
+    for kind in KINDS:
+        yield "writer-lasting", dict(sc, plan=[{"kind": kind, "by": "kind", "from": rng.randrange(2), "count": None, "heal": "close"}])
+
+
 # ---- correspondence with the Lean effect model
 def model_request(n, cap, sp, ab, k):
     r = {"op": "sorter.faults", "n": n, "cap": cap, "always_spill": sp}
@@ -212,7 +535,10 @@ def run(ctx):
     out = Outcome()
     out.rule = ("workloads (n records, capacity, spill policy, optional early abandonment after j items, optional second iteration); a fault-free run fixes the sequence of I/O calls "
                 "(mkstemp, gzip.open, write, read, handle.close, os.close, os.remove); then one run per call position with OSError injected there; after close() (twice) the temp directory, "
-                "the mkstemp descriptors and the gzip handles are inspected; every injected run is non-trivial; distinct (workload, position)")
+                "the mkstemp descriptors and the gzip handles are inspected; every injected run is non-trivial; distinct (workload, position).  Fault plans (implementation only): "
+                "a caller that carries on after a reported failure (keeps adding / writing, iterates or closes again; what returned normally must be complete), several iterations, "
+                "reads failing with EOFError / zlib.error, spill files cut short or damaged on disk between spill and merge, faults of one call kind (or of every call) that last until "
+                "the first close() has ended followed by a retried close(), 2-3 faults in one run; Sorter and sorting MafWriter (small sorter capacity)")
     rng = ctx.rng("c18")
     workloads = [(0, 2, True, None), (1, 2, True, None), (3, 2, True, None), (4, 2, True, None), (5, 2, False, None), (2, 3, False, None),
                  (5, 1, True, None), (6, 2, True, 2), (5, 2, True, 3), (4, 3, True, 1)]
@@ -269,6 +595,25 @@ def run(ctx):
                     continue
                 out.failures += failures
                 out.nontrivial.add(("writer", n, k))
+        # fault plans the effect model cannot express (implementation side only)
+        prng = ctx.rng("c18-plans")
+        sampled = set()
+        for fam, sc in plan_cases(ctx, prng, tmp):
+            if fam in PENDING_DEFECTS:
+                continue
+            out.evaluations += 1
+            obs, failures = eval_plan(sc, tmp)
+            out.failures += [dict(g, family=fam) for g in failures]
+            out.distribution["plan:" + fam] += 1
+            if obs["fired"] or obs["truncated"]:
+                out.nontrivial.add(json.dumps(sc, sort_keys=True))
+            elif fam != "clean":
+                out.distribution["plan:fault-not-reached"] += 1
+            if fam in ("lasting", "truncate") and (obs["fired"] or obs["truncated"]) and fam not in sampled:
+                sampled.add(fam)
+                out.sample({"family": fam, "case": sc, "raised": obs["raised"][:4]}, limit=4)
+    out.notes.append("fault plans of the families carry-on, re-iterate, eof-read, zlib-read, truncate, damage, lasting, blackout, multi (and their writer variants) are run on the "
+                     "implementation only: the effect model (driver op sorter.faults) takes one transient OSError and a caller that gives up at the first failure")
     # correspondence: the effect model predicts the exact I/O call sequence, what is raised in which phase, and what is left
     reqs = [model_request(*wl) for wl, _obs in corr]
     mo = ctx.driver.run(reqs)
@@ -292,12 +637,64 @@ def _calls_around(calls, k):
     return "calls[%d:%d] = %s" % (lo, lo + 8, calls[lo:lo + 8])
 
 
+def _plan_text(sc):
+    rules = []
+    for r in sc.get("plan") or []:
+        if r.get("kind", "*") == "*" and r.get("by") == "pos" and r.get("count") == 1:
+            rules.append("I/O call %d of the run fails with %s" % (r["from"], r.get("exc") or "OSError"))
+            continue
+        what = "every call" if r.get("kind", "*") == "*" else r["kind"]
+        where = "from call %d of the run" % r["from"] if r.get("by") == "pos" else "from its occurrence %d" % r["from"]
+        rules.append("%s %s fails with %s (%s%s)" % (what, where, r.get("exc") or "OSError", "once" if r.get("count") == 1 else "%s time(s)" % r["count"] if r.get("count") else "every time",
+                                                  ", until the first close() has returned or raised" if r.get("heal") == "close" else ""))
+    tr = sc.get("truncate")
+    if tr and "flip" in tr:
+        rules.append("spill file %d is damaged (the byte at %d%% of its length is inverted) before the merge" % (tr["file"], int(tr["flip"] * 100)))
+    elif tr:
+        rules.append("spill file %d is cut short (%s) before the merge" % (tr["file"], "%d byte(s) kept" % tr["cut"] if isinstance(tr["cut"], int) and tr["cut"] > 0
+                                                                             else "%d byte(s) dropped" % -tr["cut"] if isinstance(tr["cut"], int) else "fraction %s kept" % tr["cut"]))
+    return "; ".join(rules) or "no fault"
+
+
+def _replay_plan(f):
+    sc = f.get("case")
+    if not isinstance(sc, dict) or not isinstance(sc.get("n"), int):
+        return None
+    if sc.get("target") == "writer":
+        print("executed: sorting MafWriter (assume_sorted=False, Coordinate; sorter capacity %s) over %d records; the caller %s; faults: %s" % (
+            sc.get("capacity") or "default", sc["n"], "carries on after a reported failure (keeps writing, closes twice)" if sc.get("carry_on") else "stops writing at the first failure and closes once",
+            _plan_text(sc)))
+    else:
+        print("executed: Sorter(capacity %s, always_spill=%s), %d records added, iterations %s, close() (retried on failure); the caller %s; faults: %s" % (
+            sc.get("capacity"), sc.get("always_spill"), sc["n"], ["to the end" if j is None else "abandoned after %d" % j for j in sc.get("iters", [None])],
+            "carries on after a reported failure" if sc.get("carry_on") else "goes straight to close() at the first failure", _plan_text(sc)))
+    with tempfile.TemporaryDirectory() as tmp:
+        obs, failures = eval_plan(sc, tmp)
+    print("implementation: %d I/O call(s), injected %s, file cut %s" % (len(obs["calls"]), obs["fired"][:6], obs["truncated"]))
+    print("implementation: raised=%s" % obs["raised"][:8])
+    if sc.get("target") == "writer":
+        print("implementation: close() %s; %d write(s) returned normally, %d record line(s) in the output" % (
+            "returned normally" if obs["closed_normally"] else "raised", len(obs["added"]), len(obs["lines"])))
+    else:
+        print("implementation: %d add(s) returned normally; iterations %s; close attempts %s" % (
+            len(obs["added"]), [("returned" if i["returned"] else "raised", i["keys"]) for i in obs["iterations"]], obs["closes"]))
+    print("implementation: leaked_files=%s leaked_fds=%s open_handles=%s" % (obs["leaked_files"], obs["leaked_fds"], obs["open_handles"]))
+    print("model: not consulted (the effect model takes one transient OSError and a caller that gives up)")
+    for g in failures:
+        print("oracle: [%s] %s" % (g["kind"], g["what"]))
+    if not failures:
+        print("oracle: satisfied (every failure reported, nothing added successfully is missing, nothing left behind)")
+    return failures
+
+
 def replay_case(ctx, failure):
     """Re-evaluate the stored failing input on the current implementation; return the list of failure dicts it
     produces now (empty list = the property holds on that input)."""
     f = failure
     kind = f.get("kind")
     sc = f.get("scenario")
+    if sc == "plan":
+        return _replay_plan(f)
     if sc is None:                       # files written before the field existed
         if "always_spill" in f:
             sc = "workload"
